@@ -497,7 +497,7 @@ pub fn run(ctx: &Ctx) {
     let c = StreamCfg {
         mix: Mix { fixed: 1, v9: 4, ipfix: 4 },
         ids: (2, 4),
-        max_fields: 10,
+        max_fields: 14,
         calls: (1, 3),
         pkts_per_call: (1, 3),
         max_sets: 4,
